@@ -644,12 +644,12 @@ Ltac rel2_step :=
   | progress cbv zeta ].
 Ltac rel2_auto := repeat rel2_step.
 
-Lemma respects_rr_address_with_prefix (a : addr) (prefix : N) : respects (rr_address_with_prefix a prefix).
-Proof. unfold respects, rr_address_with_prefix. rel2_auto. Qed.
+Lemma respects_rr_address_with_length (a : addr) (minimum : N) : respects (rr_address_with_length a minimum).
+Proof. unfold respects, rr_address_with_length. rel2_auto. Qed.
 
 Lemma respects_enc_edns_option (o : ednsopt) : respects (enc_edns_option o).
 Proof.
-  pose proof respects_rr_address_with_prefix as HA.
+  pose proof respects_rr_address_with_length as HA.
   unfold respects, enc_edns_option, enc_ecs, enc_cookie, enc_padding. destruct o; rel2_auto; apply HA.
 Qed.
 
@@ -659,7 +659,7 @@ Proof. unfold respects, set_address_length_index. rel2_auto. Qed.
 Lemma respects_enc_apitem (i : apitem) : respects (enc_apitem i).
 Proof.
   unfold respects, enc_apitem. rel2_auto;
-    first [apply respects_rr_address_with_prefix|apply respects_set_address_length_index].
+    first [apply respects_rr_address_with_length|apply respects_set_address_length_index].
 Qed.
 
 Lemma respects_enc_service_parameter (p : svcparam) : respects (enc_service_parameter p).
@@ -701,7 +701,7 @@ Section TwoNameWriters.
     destruct (lookup (r_type r) enc_dispatch) as [[ec f|[| | |]]|]; try apply rel2_ill;
       destruct (r_data r); try apply rel2_ill; rel2_auto;
       first [apply HF|apply HO|apply HI|apply HS
-            |apply respects_rr_address_with_prefix|apply respects_set_address_length_index].
+            |apply respects_rr_address_with_length|apply respects_set_address_length_index].
   Qed.
 
   Lemma rel2_enc_dns (m : dns) : rel2 (enc_dns_with wn1 m) (enc_dns_with wn2 m).
